@@ -838,4 +838,26 @@ theorem slave_only_at_runtime (i i1 i2 i3 : Inst) (order : List Nat) (pre post :
   obtain ⟨_, b, c⟩ := run_slaveOnly post i2 i3 hinv2 hs2 hgpost hnopost hpost
   exact b (by rw [c, hd]; exact hso1')
 
+/-- **What a port that is not Slave hands to its servo is a peer delay result and nothing else**: no Sync offset and
+no Delay_Resp offset, on any host call, in any reachable state. -/
+theorem non_slave_port_feeds_peer_delay_only (i i' : Inst) (op : Op) (obs : Obs) (q : Nat) (hinv : Inv i)
+    (hb : ∀ order, op = .bmca order → order.Nodup ∧ ∀ j, j < i.ports.length → j + 1 ∈ order)
+    (h : i.step op = .ok (i', obs, q)) :
+    ∀ (k : Nat) (m : Measurement) (p : Port), (k, Out.measurement m) ∈ obs → portAt i.ports k = some p →
+      p.st.isSlave = false → m.rawSync = none ∧ m.rawDelay = none := by
+  intro k m p hm hp hs
+  rcases emitters_guarded i i' op obs q hinv hb h (k, .measurement m) hm with hpl | ⟨p', hp', hg⟩
+  · simp [Out.plain] at hpl
+  · simp only at hp'
+    rw [hp] at hp'; cases hp'
+    have := (hg (.measurement m) (List.mem_singleton.2 rfl)).2 m rfl
+    rw [hs] at this
+    constructor
+    · cases hr : m.rawSync with
+      | none => rfl
+      | some v => exact absurd (this (Or.inl (by simp [hr]))) (by simp)
+    · cases hr : m.rawDelay with
+      | none => rfl
+      | some v => exact absurd (this (Or.inr (by simp [hr]))) (by simp)
+
 end Statime.C08
